@@ -39,6 +39,9 @@ func callsIn(fn *ssa.Function) []ssa.CallInstruction {
 func returnsIn(fn *ssa.Function) []*ssa.Return {
 	var out []*ssa.Return
 	for _, b := range fn.Blocks {
+		if b == fn.Recover {
+			continue // synthetic exit taken only after a recovered panic
+		}
 		for _, ins := range b.Instrs {
 			if r, ok := ins.(*ssa.Return); ok {
 				out = append(out, r)
